@@ -77,6 +77,11 @@ def gen_cases(ctx, n_per_kind):
                     p[k] = 0.8 if i % 3 == 1 else float(rng.uniform(0.3, 0.8))
                     if kind == "pixel":
                         p[k] = min(p[k], 0.7)      # point-sampled pixels outside the box: keep the minor axis resolvable
+            if i % 3 == 1 and kind != "pixel":
+                # on the upper edge of the ellipticity range the source is also large (the PSF then hides least of the axis ratio)
+                for k in p:
+                    if k.startswith("r_eff"):
+                        p[k] = float(rng.uniform(0.8, 1.0) * N / 12)
             if t in ("doublesersic", "sersic_exp"):
                 # alternately one well-defined axis ratio for the composite and two clearly different ones with the second
                 # component dominant (so that a component whose own ellipticity is ignored shows); each run has both kinds
